@@ -305,6 +305,111 @@ class PortRig:
 
 
 # --------------------------------------------------------------------------------------
+# the connection phase of the real PortTransport (spec/TransportLife.tla)
+
+LIFE_FRAMES = {"other": " I --- 01:145038 --:------ 01:145038 1F09 003 FF073F",
+               "foreignsig": " I --- 18:222222 63:262142 --:------ 7FFF 014 0001966A1C9A8F7631302E332E31"}
+
+
+async def run_life(steps: list[list], sending: bool = True) -> dict:
+    """One schedule on a fresh real PortTransport (FakeSerial, virtual time).  steps: ["rx", kind] | ["sleep", secs].
+    Returns the item for TransportLifeTrace.  Must run inside a VLoop."""
+    import ramses_tx.transport as tr
+    from ramses_tx.const import SZ_ACTIVE_HGI
+    from ramses_tx.protocol import PortProtocol
+
+    loop = asyncio.get_running_loop()
+    _VCLOCK["loop"] = loop
+    tr.is_hgi80 = lambda name: False  # type: ignore[assignment]
+    evs: list[dict] = []
+    proto = PortProtocol(lambda msg: None, disable_qos=False)
+    kind_of: dict[str, str] = {v: k for k, v in LIFE_FRAMES.items()}
+    real_rx, real_made = proto.pkt_received, proto.connection_made
+
+    def pkt_received(pkt):  # noqa: ANN001, ANN202
+        evs.append({"e": "pkt", "k": kind_of.get(str(pkt._frame), "?")})
+        return real_rx(pkt)
+
+    def connection_made(transport, ramses=False):  # noqa: ANN001, ANN202
+        if not ramses:    # the call serial_asyncio's base class makes by itself: the protocol ignores it
+            return real_made(transport, ramses=ramses)
+        gid = transport.get_extra_info(SZ_ACTIVE_HGI)
+        evs.append({"e": "made", "k": "none" if gid is None else "gwy" if gid == PortRig.GWY else "foreign" if gid == "18:222222" else str(gid)})
+        return real_made(transport, ramses=ramses)
+
+    proto.pkt_received = pkt_received  # type: ignore[method-assign]
+    proto.connection_made = connection_made  # type: ignore[method-assign]
+    ser = FakeSerial()
+    n_written = [0]
+    real_write = ser.write
+
+    def write(data: bytes) -> int:
+        if b" 7FFF " in data:
+            evs.append({"e": "sig", "k": ""})
+            n_written[0] += 1
+            kind_of.setdefault(data.decode().rstrip("\r\n").replace("18:000730", PortRig.GWY, 1), "sigecho")
+        return real_write(data)
+
+    ser.write = write  # type: ignore[method-assign]
+    t = tr.PortTransport(ser, proto, disable_sending=not sending, loop=loop)
+    try:
+        for _ in range(4):
+            await asyncio.sleep(0)
+        for st in steps:
+            if st[0] == "sleep":
+                await asyncio.sleep(float(st[1]))
+                continue
+            kind = st[1]
+            if kind == "sigecho":
+                sigs = [w for w in ser.written if b" 7FFF " in w]
+                if not sigs:
+                    continue   # no signature on the air yet: nothing to echo
+                frame = sigs[0].decode().rstrip("\r\n").replace("18:000730", PortRig.GWY, 1)
+            else:
+                frame = LIFE_FRAMES[kind]
+            evs.append({"e": "rx", "k": kind})
+            before = ser.reads
+            ser.feed(f"045 {frame}\r\n".encode())
+            for _ in range(8):
+                await asyncio.sleep(0)
+                if ser.reads > before:
+                    break
+            for _ in range(4):
+                await asyncio.sleep(0)
+        await asyncio.sleep(3.0)
+        for _ in range(6):
+            await asyncio.sleep(0)
+        gid = t.get_extra_info(SZ_ACTIVE_HGI)
+        evs.append({"e": "end", "k": "none" if gid is None else "gwy" if gid == PortRig.GWY else "foreign" if gid == "18:222222" else str(gid)})
+    finally:
+        try:
+            t.close()
+        finally:
+            try:
+                loop.remove_reader(ser.fileno())
+            except (OSError, ValueError):
+                pass
+            ser.close()
+    return {"maxtrys": int(tr._SIGNATURE_MAX_TRYS), "sending": int(sending), "ev": evs}
+
+
+def life_schedules(full: bool) -> list[tuple[list[list], bool]]:
+    """Systematic: where, relative to the signature writes (one every 50 ms, at most _SIGNATURE_MAX_TRYS), the echo
+    and other packets arrive - before the first write, between writes, right at a write, during the last sleep,
+    after the transport has given up, never; foreign signatures around it; read-only transports."""
+    out: list[tuple[list[list], bool]] = []
+    gaps = [0.0, 0.01, 0.049, 0.05, 0.051, 0.12, 1.94, 1.99, 2.01, 2.5] if full else [0.0, 0.02, 0.05, 0.12, 1.99, 2.5]
+    for g in gaps:
+        for pre in ([], [["rx", "other"]], [["rx", "foreignsig"]], [["rx", "other"], ["rx", "foreignsig"]]):
+            for post in ([], [["rx", "other"]], [["rx", "foreignsig"], ["rx", "other"]]):
+                out.append((pre + [["sleep", g], ["rx", "sigecho"]] + post, True))
+                out.append((pre + [["sleep", g], ["rx", "foreignsig"], ["rx", "sigecho"], ["rx", "sigecho"]] + post, True))
+        out.append(([["sleep", g], ["rx", "other"], ["rx", "other"]], True))          # the echo never comes
+        out.append(([["rx", "other"], ["sleep", g], ["rx", "foreignsig"], ["rx", "other"]], False))  # read-only
+    return out
+
+
+# --------------------------------------------------------------------------------------
 # packet log / packet dict
 
 
